@@ -310,6 +310,25 @@ def run_systematic(spec, rec):
                 for body in ('|x', '|' * top + 'x^y'):
                     probe(structref.msh_line(v, 'ADT_A01') + '\r' + sname + body, rec, bases)
                     rec.count('malformed_segment_probes')
+    # the optional arguments of parse_message at their edge values: an empty profile dictionary, forced validation with and
+    # without a report object - the text is parsed (or refused with a library exception) all the same
+    from hl7apy.parser import parse_message
+    from hl7apy.exceptions import HL7apyException
+    for b in HAND[:4]:
+        for kwargs in ({'message_profile': {}}, {'message_profile': {}, 'force_validation': True},
+                       {'force_validation': True, 'report_file': _WriteOnly()},
+                       {'message_profile': {}, 'force_validation': True, 'report_file': _WriteOnly()}):
+            for level in (1, 2):
+                rec.evaluation(('optional-args', b[:30], level, tuple(sorted(kwargs))))
+                try:
+                    parse_message(b, validation_level=level, **kwargs)
+                    rec.count('optional_argument_probes_returned')
+                except (HL7apyException, ValueError):
+                    rec.count('optional_argument_probes_refused')
+                except Exception as e:
+                    rec.violation('leak:parse_message-optional-arguments:%s:%s' % (type(e).__name__, innermost_hl7apy_frame(e)),
+                                  {'kind': 'optional-args', 'text': b, 'level': level, 'kwargs': sorted(kwargs)},
+                                  {'exc': repr(e)[:200]})
     rec.sample({'kind': 'systematic', 'example': bases[0][:17]})
 
 
